@@ -24,14 +24,17 @@ Inductive matekind :=
 | MK_new (p : nat)            (* arguments untouched; returns two new objects carrying copies of the fitness *)
 | MK_mixed (p : nat)          (* a rewritten in place, b untouched; returns (new object, a) *)
 | MK_setfit (p : nat)         (* in place exchange, a.fitness.values = (7,), del b.fitness.values; returns (a, b) *)
-| MK_new_first (p : nat).     (* b rewritten in place; returns (new object with fitness (9,), b) *)
+| MK_new_first (p : nat)      (* b rewritten in place; returns (new object with fitness (9,), b) *)
+| MK_revert (p : nat).        (* both rewritten in place; returns (new object with a's OLD genotype and fitness, b)
+                                 -- what gp.staticLimit does when its limit triggers *)
 
 Inductive mutkind :=
 | UK_id
 | UK_inc (i : nat)            (* g[i] += 1 in place (nothing if i out of range), returns (a,) *)
 | UK_new (i : nat)            (* argument untouched, returns a new object with the incremented genotype and a copy of the fitness *)
 | UK_setfit                   (* g[0] += 1 in place and a.fitness.values = (5,), returns (a,) *)
-| UK_new_touch.               (* g[0] += 1 in place, returns a new object with the old genotype and fitness (3,) *)
+| UK_new_touch                (* g[0] += 1 in place, returns a new object with the old genotype and fitness (3,) *)
+| UK_revert (i : nat).        (* g[i] += 1 in place, returns a new object with the OLD genotype and a copy of the fitness *)
 
 Definition cross (p : nat) (g1 g2 : G) : G := firstn p g1 ++ skipn p g2.
 
@@ -53,6 +56,7 @@ Definition mate_k (k : matekind) (x y : obj) : mate_ans G F :=
   | MK_mixed p => mkmate (cross p g1 g2, f1) y (RNew (cross p g2 g1, f2)) RArg1
   | MK_setfit p => mkmate (cross p g1 g2, Some [7%Z]) (cross p g2 g1, None) RArg1 RArg2
   | MK_new_first p => mkmate x (cross p g2 g1, f2) (RNew (cross p g1 g2, Some [9%Z])) RArg2
+  | MK_revert p => mkmate (cross p g1 g2, f1) (cross p g2 g1, f2) (RNew (g1, f1)) RArg2
   end.
 
 Definition mut_k (k : mutkind) (x : obj) : mut_ans G F :=
@@ -63,6 +67,7 @@ Definition mut_k (k : mutkind) (x : obj) : mut_ans G F :=
   | UK_new i => mkmut x (UNew (inc_at i g, f))
   | UK_setfit => mkmut (inc_at 0 g, Some [5%Z]) UArg
   | UK_new_touch => mkmut (inc_at 0 g, f) (UNew (g, Some [3%Z]))
+  | UK_revert i => mkmut (inc_at i g, f) (UNew (g, f))
   end.
 
 Definition mate_of (ks : list matekind) (k : nat) (x y : obj) : mate_ans G F := mate_k (nth k ks MK_id) x y.
